@@ -246,6 +246,17 @@ func (p *FloatingIPPlugin) syncPodIP(pod *corev1.Pod) error {
 		return nil
 	}
 	defer p.lockPod(pod.Name, pod.Namespace)()
+	// we are holding the pod's lock, query again: the given object may be an earlier incarnation of a pod that has
+	// been deleted and created again with the same name since it was listed or since its event was queued
+	if cur, err := p.PodLister.Pods(pod.Namespace).Get(pod.Name); err == nil {
+		if cur.UID != pod.UID {
+			return nil
+		}
+		pod = cur
+		if pod.Status.Phase != corev1.PodRunning || pod.Annotations == nil {
+			return nil
+		}
+	}
 	keyObj, err := util.FormatKey(pod)
 	if err != nil {
 		glog.V(5).Infof("sync pod %s/%s ip formatKey with error %v", pod.Namespace, pod.Name, err)
